@@ -181,8 +181,13 @@ structure HexM where
   macroRec : List Nat := []
 deriving Repr, DecidableEq
 
+/-- `MAX_MACRO_LEN` of dcs.rs (`Props/C10.maxMacroLen_synced` compares it with the regenerated constant) -/
+def maxMacroLen : Nat := 32767
+
+/-- `push_repeated(dst, rec, n)`: whole records only, never beyond the macro space; `String::len` counts UTF-8 bytes -/
 def repeatAppend (m : List Nat) (n : Int) (r : List Nat) : List Nat :=
-  m ++ (List.replicate n.toNat r).flatten
+  if r.isEmpty then m else
+  m ++ (List.replicate (min n.toNat ((maxMacroLen - (encodeAll m).length) / (encodeAll r).length)) r).flatten
 
 /-- one character of the macro body; `none` = `Err("Invalid hex number…" / "Invalid end of repeat number")` -/
 def hexStep (table : List Nat) (s : HexM) (ch : Nat) : Option HexM :=
